@@ -3,6 +3,7 @@ CONSTANTS
   HeomResets = TRUE
   FreeModeLocal = TRUE
   RestoreOnError = FALSE
+  SplitCopies = TRUE
   NefRecomputes = TRUE
   NrefPersists = FALSE
 SPECIFICATION Spec
